@@ -114,7 +114,7 @@ def from_xir(xir_prog: xir.Program) -> Program:
                     for p in op.params:
                         if isinstance(p, Decimal):
                             params.append(float(p))
-                        elif isinstance(p, Iterable):
+                        elif isinstance(p, Iterable) and not isinstance(p, str):
                             params.append(np.array(_listr(p)))
                         else:
                             params.append(p)
